@@ -85,8 +85,12 @@ func solveAll(results []*vc.FuncResult, s *vc.Solver, workers int) []*oblResult 
 	}
 	var out []*oblResult
 	var jobs []job
+	only := os.Getenv("GOVC_ONLY")
 	for _, r := range results {
 		for _, o := range r.Obls {
+			if only != "" && !strings.Contains(o.Name, only) {
+				continue
+			}
 			or := &oblResult{Func: r.Func, Obl: o, Answers: make([]vc.Answer, len(o.Queries)), FailIdx: -1}
 			out = append(out, or)
 			for qi := range o.Queries {
@@ -130,7 +134,7 @@ func solveAll(results []*vc.FuncResult, s *vc.Solver, workers int) []*oblResult 
 				again = append(again, j)
 			}
 		}
-		if len(again) > 0 && len(again) <= 64 {
+		if len(again) > 0 && len(again) <= 64 && os.Getenv("GOVC_NORETRY") == "" {
 			saved := s.Timeout
 			s.Timeout = 2 * saved
 			ch2 := make(chan job)
@@ -229,6 +233,33 @@ func cmdFn(args []string) {
 		}
 	}
 	s := vc.NewSolver(filepath.Join(*verif, "out"), !*nocache, time.Duration(*timeout)*time.Second)
+	if os.Getenv("GOVC_DRY") != "" {
+		for _, r := range results {
+			nq, big := 0, 0
+			for _, o := range r.Obls {
+				nq += len(o.Queries)
+				for _, q := range o.Queries {
+					if len(q.PC) > big {
+						big = len(q.PC)
+					}
+				}
+			}
+			fmt.Printf("%s: %d obligations, %d queries, %d paths (%d returning), largest path condition %d facts; %s\n", r.Func, len(r.Obls), nq, r.Paths, r.RetPaths, big, r.Fail)
+			type kv struct {
+				n string
+				q int
+			}
+			var top []kv
+			for _, o := range r.Obls {
+				top = append(top, kv{o.Name, len(o.Queries)})
+			}
+			sort.Slice(top, func(i, j int) bool { return top[i].q > top[j].q })
+			for i := 0; i < len(top) && i < 12; i++ {
+				fmt.Printf("   %6d  %s\n", top[i].q, top[i].n)
+			}
+		}
+		return
+	}
 	ors := solveAll(results, s, 16)
 	s.Save()
 	byFunc := map[string][]*oblResult{}
